@@ -483,7 +483,9 @@ class FComponent(Sequence):
     _extra_kwargs = ("conversion", "expression", "is_tstring")
 
     def __new__(cls, s=None, conversion=None, expression=None, is_tstring=False):
-        value = super().__new__(cls, s)
+        s = list(s or ())
+        # Join adjacent string nodes of the format spec, as `FString` does.
+        value = super().__new__(cls, s[:1] + _join_strings(s[1:]))
         value.conversion = conversion
         value.expression = expression
         value.is_tstring = is_tstring
@@ -503,6 +505,17 @@ class FComponent(Sequence):
              + ", expression=" + repr(self.expression)
              + ", is_tstring=" + repr(self.is_tstring))
         )
+
+
+def _join_strings(nodes):
+    "Join adjacent string nodes for the sake of equality testing."
+    return [
+        node
+        for is_string, components in groupby(nodes, lambda x: isinstance(x, String))
+        for node in (
+            [reduce(operator.add, components)] if is_string else components
+        )
+    ]
 
 
 def _string_in_node(string, node):
@@ -527,18 +540,7 @@ class FString(Sequence):
     _extra_kwargs = ("brackets", "is_tstring")
 
     def __new__(cls, s=None, brackets=None, is_tstring=False):
-        value = super().__new__(
-            cls,
-            # Join adjacent string nodes for the sake of equality
-            # testing.
-            (
-                node
-                for is_string, components in groupby(s, lambda x: isinstance(x, String))
-                for node in (
-                    [reduce(operator.add, components)] if is_string else components
-                )
-            ),
-        )
+        value = super().__new__(cls, _join_strings(s))
 
         if brackets is not None and _string_in_node(f"]{brackets}]", value):
             raise ValueError(f"Syntactically illegal bracket string: {s!r}")
